@@ -390,6 +390,63 @@ def run_job(job, io):
                             viol('internal-error', site, 'malformed flatten result raised %s' % describe_outcome(got))
                     keys.add('%s|malformed|%s|%s' % (opname, m, type(e).__name__))
                 del got
+    # ---- malformed returns must be judged the same way by every entry point that reaches the custom flatten function
+    if not violations:
+        insts = {}
+        for x in _walk_custom(scn):
+            if isinstance(x, U.Node) and type(x) not in insts:
+                insts[type(x)] = x
+        kw = scn.kw
+        entry_points = (
+            ('flatten', lambda node: optree.tree_flatten(scn.tree, **kw)),
+            ('flatten_with_path', lambda node: optree.tree_flatten_with_path(scn.tree, **kw)),
+            ('iter', lambda node: list(optree.tree_iter(scn.tree, **kw))),
+            ('map', lambda node: optree.tree_map(lambda x: x, scn.tree, **kw)),
+            ('leaves', lambda node: optree.tree_leaves(scn.tree, **kw)),
+            ('one_level', lambda node: optree.tree_flatten_one_level(node, **kw)),
+            ('node_flatten', lambda node: optree.tree_flatten(node, **kw)),
+            ('node_with_path', lambda node: optree.tree_flatten_with_path(node, **kw)),
+            ('node_iter', lambda node: list(optree.tree_iter(node, **kw))),
+        )
+        buf0, buf1 = array('q', [0] * len(tracked)), array('q', [0] * len(tracked))
+        for (_cls, _ns, f) in scn.reg.live:
+            node = insts.get(_cls)
+            if node is None:
+                continue
+            for m in U.MALFORMS + ('list3',):
+                seen = {}
+                for ename, ep in entry_points:
+                    site = '%s@malformed:%s' % (ename, m)
+                    io.progress({'site': site, 'tape': tape.values})
+                    refcounts(tracked, buf0)
+                    calls0 = f.flatten_calls
+                    f.malform = m
+                    try:
+                        ep(node)
+                        oc = 'ok'
+                    except BaseException as e:  # noqa: BLE001
+                        oc = type(e).__name__
+                        if isinstance(e, SystemError) or not isinstance(e, (RuntimeError, ValueError, TypeError)):
+                            viol('internal-error', site, 'malformed custom flatten result (%s) raised %s: %s' % (m, type(e).__name__, e))
+                        e.__traceback__ = None
+                        del e
+                    finally:
+                        f.malform = None
+                    if f.flatten_calls != calls0:  # this entry point really reached the malformed function
+                        seen[ename] = oc
+                        faults_fired['malformed'] += 1
+                        refcounts(tracked, buf1)
+                        grew = [(type(o).__name__, a, b) for o, a, b in zip(tracked, buf0, buf1) if b > a]
+                        if grew:
+                            viol('retained', site, 'references still held after a malformed flatten result (%s) was rejected: %r' % (m, grew[:6]))
+                if len(set(seen.values())) > 1:
+                    viol('malformed-disagree', 'malformed:%s' % m, 'entry points judge the same malformed custom flatten result (%s) differently: %r' % (m, seen))
+                for ename, oc in seen.items():
+                    keys.add('malformed|%s|%s|%s' % (ename, m, oc))
+                if violations:
+                    break
+            if violations:
+                break
     scn_tree = ops_desc['tree']
     scn.close()
     sample = {'op': opname, 'K': K, 'events_head': labels[:12], 'tree': scn_tree[:200], 'faults_injected': len(ks),
